@@ -329,8 +329,14 @@ class StateMachine(object):  # pylint: disable=too-many-public-methods
 
     def action(self, event):
         # (int) -> None
-        """Execute the action triggered by event"""
-        action = self.transition_table[(event, self.current_state)]
+        """Execute the action triggered by event.
+
+        Event/state combinations that PS3.8 Table 9-10 leaves undefined are ignored, e.g.
+        fragments of an outgoing message that are still queued when the peer aborts.
+        """
+        action = self.transition_table.get((event, self.current_state))
+        if action is None:
+            return
         self.current_state = action()
 
     def ae_1(self):
